@@ -73,7 +73,11 @@ pub fn plan_for(prop: &str, tier: Tier, seed: u64, verif_dir: &str) -> Option<Pl
 			property: "C04".into(),
 			tier,
 			seed,
-			jobs: vec![job("lnsim", "receive", n(600, 20000)), job("lnsim", "offchain", n(1500, 20000))],
+			jobs: vec![
+				job("lnsim", "receive", n(600, 20000)),
+				job("lnsim", "offchain", n(1500, 20000)),
+				job("lnsim", "deadlines", n(600, 20000)),
+			],
 			level: "exploration".into(),
 			rule: "profiles `receive` (3 real nodes, world and fault mix of C02's `forward` profile: direct, forwarded and two-part payments, claims and explicit fails by the recipient in seeded order relative to message delivery, crashes and restarts of the recipient with stale ChannelManager snapshots, on-chain resolution) and `offchain` (2-3 nodes, no chain activity, boundary amounts). Oracles: C04-1 PaymentClaimable only at the registered recipient, for the complete amount, with a claim window; C04-3 the preimage leaves the node only after claim_funds, PaymentClaimed follows claim_funds made above the deadline and reports the full amount, never without claim_funds; recipient side of the wealth oracle (what PaymentClaimed reported is owned on chain after liquidation). One evaluation = one seeded run (config, schedule and faults all drawn from the run seed; replay executes the recorded action trace). non-trivial = the run executed at least one payment/HTLC to a terminal state or fired at least one fault; distinct = distinct FNV hash of the executed (action kind, actor) sequence.".into(),
 			assumptions: t_assumptions.clone(),
